@@ -67,7 +67,14 @@ def compare(pred, row, flat):
     return diffs
 
 
-def judge_row(rid, prog_tla, cfg_tla, row):
+def base_of(row):
+    """the part of a fault-free run that the two-run clause compares with"""
+    end = row["end"]
+    return {"ran": bool(end["ran"] and not end["escaped"]), "aborted": any(e["k"] == "step" and e["outcome"] == "kbd" for e in row["events"]),
+            "status": end["status"], "step_status": end["step_status"]}
+
+
+def judge_row(rid, prog_tla, cfg_tla, row, base=None):
     """driver row -> row of Run_Trace (uniform records, markers as records)"""
     end = row["end"]
 
@@ -79,7 +86,7 @@ def judge_row(rid, prog_tla, cfg_tla, row):
           "errmarks": [[recs(x) for x in per] for per in end["errmarks"]],
           "captured": [recs(x) for x in end["captured"]],
           "real_out": recs(end["real_out"]), "real_err": recs(end["real_err"]), "user_log": recs(end["user_log"])}
-    return {"id": rid, "prog": prog_tla, "cfg": cfg_tla, "events": row["events"], "end": e2}
+    return {"id": rid, "prog": prog_tla, "cfg": cfg_tla, "events": row["events"], "end": e2, "base": base or base_of(row)}
 
 
 # ----------------------------------------------------------------------------- shared stage with cache
@@ -155,7 +162,7 @@ def shared(chk, part="core"):
     """Run (or load) the shared stage for this tree / tier / seed.  Returns a dict:
        n_runs, tlc: [{module,cfg,distinct,generated,wall,coverage}], verdicts: {clause: [ {key, ...} ]},
        divergences, samples, design_violations"""
-    key = tree_key({"tier": chk.tier, "seed": chk.seed, "part": part, "v": 3})
+    key = tree_key({"tier": chk.tier, "seed": chk.seed, "part": part, "v": 4})
     os.makedirs(CACHE, exist_ok=True)
     path = os.path.join(CACHE, "%s-%s.json.gz" % (part, key))
     lock = open(os.path.join(CACHE, "%s-%s.lock" % (part, chk.tier)), "w")
@@ -218,6 +225,29 @@ def _compute(chk, part):
             os.unlink(cf)
     finally:
         shutil.rmtree(tmp, ignore_errors=True)
+    # design level, two-run clause: every predicted faulty behaviour paired with the predicted fault-free one
+    prows = []
+    for k in sorted(preds):
+        if k[2] == 1 or (k[0], k[1], 1) not in preds:
+            continue
+        d, b = preds[k], preds[(k[0], k[1], 1)]
+        case = info[k[0]][4]
+        prows.append({"id": len(prows) + 1, "prog": case["prog"], "cfg": case["cfgs"][k[1] - 1], "events": d["events"],
+                      "end": {"ran": True, "verdict": d["verdict"], "status": d["status"], "step_status": d["step_status"], "hook_failed": d["hook_failed"]},
+                      "base": {"ran": True, "aborted": any(e["k"] == "step" and e["outcome"] == "kbd" for e in b["events"]),
+                               "status": b["status"], "step_status": b["step_status"]}, "_key": list(k)})
+
+    class _Acc0(object):
+        tlc_runs = []
+    acc0 = _Acc0()
+    acc0.tlc_runs = []
+    pv = _trace.judge_rows(acc0, "RunPair_Trace", [{x: y for x, y in r.items() if x != "_key"} for r in prows], chunks=16)
+    for m, c, r in acc0.tlc_runs:
+        tlc_runs.append({"module": m, "cfg": c, "distinct": r.distinct, "generated": r.generated, "wall_s": round(r.wall, 1),
+                         "depth": r.depth, "actions_covered": {}})
+    for rid, vs in pv.items():
+        for v in vs:
+            design.append({"inv": "PropsHold", "clause": v[2], "key": prows[rid - 1]["_key"]})
     # the real code on exactly the explored inputs
     jobs = []
     for tid in sorted(info):
@@ -231,10 +261,11 @@ def _compute(chk, part):
         if "driver_error" in row:
             raise RuntimeError("driver failed on %s:\n%s" % (row["key"], row["driver_error"]))
     jrows, divergences, div_samples = [], 0, []
+    bykey = {tuple(row["key"]): row for row in out}
     for n, row in enumerate(out):
         k = tuple(row["key"])
         case = info[k[0]][4]
-        jrows.append(judge_row(n + 1, case["prog"], case["cfgs"][k[1] - 1], row))
+        jrows.append(judge_row(n + 1, case["prog"], case["cfgs"][k[1] - 1], row, base=base_of(bykey[(k[0], k[1], 1)])))
         if k in preds:
             d = compare(preds[k], row, info[k[0]][1])
             if d:
